@@ -224,6 +224,12 @@ def extra_configs(prop, tier, seed):
         for kind in ['HC', 'ABC', 'CS', 'FPA', 'HS', 'SA', 'BHA', 'FA', 'SCA', 'GSA']:
             for c in [c for c in pool if c['kind'] == kind and c['objective'] not in ('view0', 'view00', 'fmax')][:1 if tier == 'quick' else 6]:
                 extra.append(dict(c, hook='observer', adv=0.0, n_iter=max(c['n_iter'], 3), prior=dict(same_space=True, other_objective=True)))
+    if prop in ('C02', 'C20'):
+        # objectives on a tiny scale: improvements smaller than any fixed tolerance are still improvements
+        pool = runlevel.gen_configs('thorough', seed + 161)
+        for kind in ['PSO', 'AIWPSO', 'RPSO', 'HC', 'ABC', 'CS', 'FPA', 'HS', 'SA', 'GP']:
+            for c in [c for c in pool if c['kind'] == kind][:2 if tier == 'quick' else 6]:
+                extra.append(dict(c, hook='observer', adv=0.0, n_iter=max(c['n_iter'], 5), objective='tiny'))
     if prop in ('C02', 'C20', 'C07'):
         # objectives whose return value is a view of their argument, with optimizers that move agents in place and
         # with the swarm family: the stored fitness is the value returned, whatever happens to the argument later
